@@ -1744,6 +1744,194 @@ where
     }
 }
 
+/// Read-only view of a [`Subscription`] for the verification harness (instants in ticks).
+#[cfg(feature = "verif")]
+#[derive(Clone, Debug, PartialEq, Eq)]
+pub struct VerifSub {
+    pub id: u32,
+    pub fab_idx: u8,
+    pub peer_node_id: u64,
+    pub min_int_secs: u16,
+    pub max_int_secs: u16,
+    pub reported_at: u64,
+    pub retry_at: u64,
+    pub fail_count: u8,
+    pub max_seen_attr_change_id: u64,
+    pub max_seen_event_number: u64,
+}
+
+/// One item of the private table state, as visited by [`Subscriptions::verif_visit`].
+#[cfg(feature = "verif")]
+#[derive(Clone, Debug, PartialEq, Eq)]
+pub enum VerifItem {
+    Counters {
+        next_subscription_id: u32,
+        subscriptions_count: usize,
+        next_change_id: u64,
+        reporting_cancelled: bool,
+    },
+    /// A subscription in the table, in table order.
+    Sub(VerifSub),
+    /// The snapshot of the subscription being reported on.
+    Reporting(VerifSub),
+    /// A changed-attribute entry, in table order.
+    Entry {
+        endpoint: EndptId,
+        cluster: ClusterId,
+        attr: AttrId,
+        change_id: u64,
+    },
+}
+
+#[cfg(feature = "verif")]
+impl Subscription {
+    /// Verification hook: a copy of the private fields.
+    pub fn verif_view(&self) -> VerifSub {
+        VerifSub {
+            id: self.ids.id,
+            fab_idx: self.ids.fab_idx.get(),
+            peer_node_id: self.ids.peer_node_id,
+            min_int_secs: self.min_int_secs,
+            max_int_secs: self.max_int_secs,
+            reported_at: self.reported_at.as_ticks(),
+            retry_at: self.retry_at.as_ticks(),
+            fail_count: self.fail_count,
+            max_seen_attr_change_id: self.max_seen_attr_change_id,
+            max_seen_event_number: self.max_seen_event_number,
+        }
+    }
+}
+
+/// Verification hooks: public wrappers around the crate-private table API. Add-only.
+#[cfg(feature = "verif")]
+impl<const N: usize> Subscriptions<N> {
+    pub fn verif_notify_attr_changed(&self, endpoint_id: EndptId, cluster_id: ClusterId, attr_id: AttrId) {
+        self.notify_attr_changed(endpoint_id, cluster_id, attr_id)
+    }
+
+    /// `(Some, Some)` = cluster-wide, `(Some, None)` = endpoint-wide, `(None, _)` = global.
+    pub fn verif_notify_wildcard(&self, endpoint_id: Option<EndptId>, cluster_id: Option<ClusterId>) {
+        match (endpoint_id, cluster_id) {
+            (Some(e), Some(c)) => self.notify_cluster_changed(e, c),
+            (Some(e), None) => self.notify_endpoint_changed(e),
+            (None, _) => self.notify_all_changed(),
+        }
+    }
+
+    #[allow(clippy::too_many_arguments)]
+    pub fn verif_add<'a, 's, B>(
+        &'s self,
+        now: Instant,
+        fabric_idx: NonZeroU8,
+        peer_node_id: u64,
+        min_int_secs: u16,
+        max_int_secs: u16,
+        event_numbers_watermark: EventNumber,
+        buffer: B::Buffer<'a>,
+        buffers: &'s SubscriptionsBuffers<'a, B, N>,
+    ) -> Option<ReportContext<'a, 's, B, N>>
+    where
+        B: Buffers<IMBuffer> + 'a,
+    {
+        self.add(
+            now,
+            fabric_idx,
+            peer_node_id,
+            min_int_secs,
+            max_int_secs,
+            event_numbers_watermark,
+            buffer,
+            buffers,
+        )
+    }
+
+    pub fn verif_report<'a, 's, B>(
+        &'s self,
+        now: Instant,
+        event_numbers_watermark: EventNumber,
+        buffers: &'s SubscriptionsBuffers<'a, B, N>,
+    ) -> Option<ReportContext<'a, 's, B, N>>
+    where
+        B: Buffers<IMBuffer> + 'a,
+    {
+        self.report(now, event_numbers_watermark, buffers)
+    }
+
+    pub fn verif_remove<B, F>(&self, buffers: &SubscriptionsBuffers<'_, B, N>, f: F) -> bool
+    where
+        B: Buffers<IMBuffer>,
+        F: FnMut(&Subscription) -> Option<&'static str>,
+    {
+        self.remove(buffers, f)
+    }
+
+    pub fn verif_purge_reported_changes(&self) {
+        self.purge_reported_changes()
+    }
+
+    pub fn verif_next_report_at<'a, B>(
+        &self,
+        event_numbers_watermark: EventNumber,
+        buffers: &SubscriptionsBuffers<'a, B, N>,
+    ) -> Instant
+    where
+        B: Buffers<IMBuffer> + 'a,
+    {
+        self.next_report_at(event_numbers_watermark, buffers)
+    }
+
+    /// Whether a report is in flight (the `reporting` slot is occupied).
+    pub fn verif_is_reporting(&self) -> bool {
+        self.state.lock(|s| s.borrow().reporting.is_some())
+    }
+
+    /// Visit the private state: counters, the table in order, the in-flight snapshot, the
+    /// changed-attribute entries in order.
+    pub fn verif_visit(&self, f: &mut dyn FnMut(VerifItem)) {
+        self.state.lock(|s| {
+            let s = s.borrow();
+            f(VerifItem::Counters {
+                next_subscription_id: s.next_subscription_id,
+                subscriptions_count: s.subscriptions_count,
+                next_change_id: s.changed_attrs.next_change_id,
+                reporting_cancelled: s.reporting_cancelled.is_some(),
+            });
+            for sub in s.subscriptions.iter() {
+                f(VerifItem::Sub(sub.verif_view()));
+            }
+            if let Some(sub) = s.reporting.as_ref() {
+                f(VerifItem::Reporting(sub.verif_view()));
+            }
+            for e in s.changed_attrs.entries.iter() {
+                f(VerifItem::Entry {
+                    endpoint: e.endpoint,
+                    cluster: e.cluster,
+                    attr: e.attr,
+                    change_id: e.change_id,
+                });
+            }
+        })
+    }
+}
+
+#[cfg(feature = "verif")]
+impl<'a, 's, B, const N: usize> ReportContext<'a, 's, B, N>
+where
+    B: Buffers<IMBuffer> + 'a,
+{
+    /// Verification hook: `(next_max_seen_attr_change_id, next_max_seen_event_number,
+    /// next_reported_at, next_retry_at, next_fail_count)`, instants in ticks.
+    pub fn verif_next(&self) -> (u64, u64, u64, u64, u8) {
+        (
+            self.next_max_seen_attr_change_id,
+            self.next_max_seen_event_number,
+            self.next_reported_at.as_ticks(),
+            self.next_retry_at.as_ticks(),
+            self.next_fail_count,
+        )
+    }
+}
+
 #[cfg(test)]
 mod tests {
     use crate::utils::storage::pooled::PooledBuffers;
